@@ -330,6 +330,23 @@ def check_cases(ctx, cases, label, report=True):
     """run + evaluate; returns list of dicts (case, res, fails=set(labels))."""
     with ThreadPoolExecutor(max_workers=12) as ex:
         results = list(ex.map(lambda c: run_case(ctx, c), cases))
+    # malformed stream: inputs the tool rejects by design (no sample shared by VCF and BAM) are compared
+    # on the error class only (CLI and the driver calling compute_shared_samples must both reject)
+    kept_c, kept_r = [], []
+    for c, r in zip(cases, results):
+        if r["rc"] != 0 and "No common samples" in r["stderr"]:
+            if report:
+                ctx.tally("cli.rejected.no_common_samples")
+                ctx.count(("cli-rejected", json.dumps(c["opts"], sort_keys=True)), nontrivial=False)
+                if "No common samples" not in (r["ext"].get("error") or ""):
+                    ctx.violation("haplotag:error-class", "CLI rejects the input (no common samples) but compute_shared_samples "
+                                  "accepts it: " + describe(c, r), {"kind": "cli", "case": c})
+            continue
+        kept_c.append(c)
+        kept_r.append(r)
+    cases, results = kept_c, kept_r
+    if not cases:
+        return []
     terms = [case_term(c, r) for c, r in zip(cases, results)]
     shard = max(1, -(-len(terms) // 16))
     failing, errors = eval_checks("C10cli", HEADER, CHECKS, terms, shard=shard)
